@@ -104,7 +104,7 @@ fn main() {
     }
     let _saved_stderr = if std::env::var("VERIF_KEEP_STDERR").is_ok() { -1 } else { verif_rt::process::silence_stderr() };
     // processes that execute simulated code keep their own output apart from what that code prints
-    if matches!(args[1].as_str(), "--worker" | "--report" | "replay" | "explore" | "selftest-determinism" | "selftest-primitives") {
+    if matches!(args[1].as_str(), "--worker" | "--report" | "--confirm" | "--exec-one" | "replay" | "explore" | "selftest-determinism" | "selftest-primitives") {
         verif_rt::process::silence_stdout();
     }
     verif_rt::process::install_dispatcher();
@@ -119,6 +119,21 @@ fn main() {
             let seed: u64 = args[4].parse().unwrap();
             let idx: u64 = args[5].parse().unwrap();
             with_scenario!(args[2].as_str(), S => reporter_main::<S>(tier, seed, idx), usage())
+        }
+        "--exec-one" => {
+            if args.len() < 4 {
+                usage();
+            }
+            with_scenario!(args[2].as_str(), S => exec_one_main::<S>(&args[3]), usage())
+        }
+        "--confirm" => {
+            if args.len() < 6 {
+                usage();
+            }
+            let tier = if args[3] == "thorough" { Tier::Thorough } else { Tier::Quick };
+            let seed: u64 = args[4].parse().unwrap();
+            let idx: u64 = args[5].parse().unwrap();
+            with_scenario!(args[2].as_str(), S => confirm_main::<S>(tier, seed, idx), usage())
         }
         "replay" => {
             if args.len() < 3 {
@@ -177,7 +192,9 @@ fn worker(a: &[String]) -> i32 {
     let of: u64 = a[5].parse().unwrap();
     let wall: f64 = a[6].parse().unwrap();
     let dir = &a[7];
-    with_scenario!(a[0].as_str(), S => worker_main::<S>(tier, seed, runs, shard, of, wall, dir), usage())
+    let from: u64 = a.get(8).and_then(|s| s.parse().ok()).unwrap_or(0);
+    let part: u64 = a.get(9).and_then(|s| s.parse().ok()).unwrap_or(0);
+    with_scenario!(a[0].as_str(), S => worker_main::<S>(tier, seed, runs, shard, of, wall, dir, from, part), usage())
 }
 
 fn replay(path: &str) -> i32 {
